@@ -277,6 +277,10 @@ OTHER_KINDS = {
 P17 = ('class', 'P17', [('v', 'int')], ([], [raws('self.v = 1')]), [], False)
 
 
+# kinds a correct implementation may also refuse at compile time (the defect is that the type checker lets them through)
+COMPILE_TIME_OK = {'map-in-list-key'}
+
+
 def is_overflow(kind):
     return kind.startswith('overflow-')
 
@@ -510,25 +514,35 @@ def make_plan(rng, kind, flavour, depth):
 def all_plans(rng, quick):
     kinds = list(CORE_KINDS) + list(OTHER_KINDS)
     plans = []
+    core_fl = ['plain', 'closure', 'self', 'arg', 'mixed-core']
     if quick:
-        # stratified: every kind at every depth 0..6, the flavour rotating with (kind, depth)
+        # stratified: every kind at every depth 0..6, two flavours rotating with (kind, depth)
         for ki, kind in enumerate(kinds):
             for d in range(7):
-                fl = FLAVOURS[(ki * 5 + d * 3) % len(FLAVOURS)]
-                plans.append(make_plan(rng, kind, fl, d))
-        # the Core stream (T1-T3) at every depth for every Core kind and Core flavour at least once
+                for off in ((0, 6) if d > 0 else (0,)):
+                    fl = FLAVOURS[(ki * 5 + d * 3 + off) % len(FLAVOURS)]
+                    plans.append(make_plan(rng, kind, fl, d))
+        # the Core stream (T1-T3): the kinds that are errors (a panicking run leaves no bytecode dump to replay on the
+        # model) at every depth with every Core flavour; the overflow kinds once per flavour
         for ki, kind in enumerate(CORE_KINDS):
-            for fi, fl in enumerate(['plain', 'closure', 'self', 'arg', 'mixed-core']):
-                plans.append(make_plan(rng, kind, fl, 1 + (ki + 2 * fi) % 6))
+            for fi, fl in enumerate(core_fl):
+                if is_overflow(kind):
+                    plans.append(make_plan(rng, kind, fl, 1 + (ki + 2 * fi) % 6))
+                else:
+                    for d in range(7):
+                        plans.append(make_plan(rng, kind, fl, d))
         return plans
+    # thorough: every kind x depth x flavour, four random block shapes each
     for kind in kinds:
         for d in range(7):
             for fl in (FLAVOURS if d > 0 else FLAVOURS[:3]):
-                plans.append(make_plan(rng, kind, fl, d))
-    for kind in CORE_KINDS:                       # a second helping of the Core stream with other block shapes
+                for _ in range(4):
+                    plans.append(make_plan(rng, kind, fl, d))
+    for kind in CORE_KINDS:                       # more of the Core stream (T1-T3 / T2 on panicking runs)
         for d in range(7):
-            for fl in ['plain', 'closure', 'self', 'arg', 'mixed-core']:
-                plans.append(make_plan(rng, kind, fl, d))
+            for fl in core_fl:
+                for _ in range(2 if is_overflow(kind) else 8):
+                    plans.append(make_plan(rng, kind, fl, d))
     return plans
 
 
@@ -560,6 +574,8 @@ def check_spec(b, rc, stdout, stderr):
     if rc == 0:
         return [('%s:no-failure' % kind, 'the program ran to the end (exit 0); stdout tail %r' % got_lines[-3:])]
     if not banner:
+        if kind in COMPILE_TIME_OK and 'Did not compile successfully' in stderr:
+            return []                 # the type checker refuses the program: nothing runs, nothing can fail at run time
         return [('generator:rejected', 'not a run-time failure (compile error?): ' + (stdout + stderr)[-400:])]
     if rc != 1:
         bad.append(('%s:exit-status' % kind, 'exit status %s' % rc))
@@ -569,8 +585,9 @@ def check_spec(b, rc, stdout, stderr):
     rk, detail, stack = vmtie.parse_real_error(stderr)
     funcs = [x for x in stack if not x.startswith('<')]
     if funcs != b.funcs:
-        missing = [f for f in b.funcs if f not in funcs]
-        extra = [f for f in funcs if f not in b.funcs]
+        import collections
+        missing = list((collections.Counter(b.funcs) - collections.Counter(funcs)).elements())
+        extra = list((collections.Counter(funcs) - collections.Counter(b.funcs)).elements())
         what = 'missing-frame' if missing and not extra else ('extra-frame' if extra and not missing else 'wrong-frames')
         if not missing and not extra:
             what = 'wrong-order'
@@ -588,6 +605,7 @@ def check_spec(b, rc, stdout, stderr):
 
 
 def first_panic_line(stderr):
+    stderr = re.sub(r" \(\d+\) (panicked|has overflowed)", r" \1", stderr)
     for l in stderr.split('\n'):
         if 'panicked at' in l or 'overflowed its stack' in l:
             i = stderr.index(l)
@@ -600,6 +618,44 @@ def proj_of(b):
     if b.tree is not None:
         p["tree"] = b.tree
     return p
+
+
+def panic_t2(binary, hbin, vm_drv, b, base):
+    """T2 for a run that PANICS (no dump is written then): the bytecode is read back from the .mmm file `mscript compile`
+    writes for the same source (codec harness = the interpreter's own loader), the VM model runs on it, and stdout / outcome class /
+    per-instruction trace up to the failing instruction are compared as in vmtie.compare"""
+    import os, shutil
+    proj = proj_of(b)
+    d = programs.materialize(proj, base)
+    tr = os.path.join(d, "_trace")
+    rc, out, err = programs.run_bin(binary, ["run", proj["entry"], "-q"], d, {"MSCRIPT_VERIF_TRACE": tr}, timeout=30)
+    trace = []
+    if os.path.exists(tr):
+        for l in open(tr, encoding="utf8", errors="replace"):
+            q = l.rstrip("\n").split("\t")
+            if len(q) == 5:
+                trace.append((q[0], int(q[1]), int(q[2]), int(q[3]), int(q[4])))
+    real = {"dir": d, "rc": rc, "stdout": out, "stderr": err, "trace": trace}
+    try:
+        # `run` keeps the bytecode in memory: compile the same source to main.mmm (C04: run == compile + execute; a
+        # difference would show below as a trace disagreement)
+        programs.run_bin(binary, ["compile", proj["entry"], "--quick"], d, timeout=30)
+        if not os.path.exists(os.path.join(d, "main.mmm")):
+            return b, real, ("skip", "no main.mmm")
+        with open(os.path.join(d, "_cases"), "w") as f:
+            f.write("L %s\n" % "main.mmm".encode().hex())
+        os.makedirs(os.path.join(d, "_scratch"), exist_ok=True)
+        hrc, _, herr = core.sh([hbin, "_cases", "_res", "_scratch"], cwd=d, timeout=60)
+        res = open(os.path.join(d, "_res")).read().strip() if hrc == 0 else ""
+        if not res.startswith("load=") or res[5:] in ("ERR", "PANIC"):
+            return b, real, ("skip", "loader: %s %s" % (res[:40], herr.decode("utf8", "replace")[-200:]))
+        dump = os.path.join(d, "_dump")
+        with open(dump, "wb") as f:
+            f.write(bytes.fromhex(res[5:]))
+        model = vmtie.run_model(vm_drv, dump, "main.mmm#__module__")
+        return b, real, vmtie.compare(proj, real, model)
+    finally:
+        shutil.rmtree(d, ignore_errors=True)
 
 
 DEEP = ("f = fn(n: int) -> int {\n  if n == 0 {\n    return 0\n  }\n  return self(n - 1) + 1\n}\nprint \"start\"\nprint f(%d)\n")
@@ -640,15 +696,36 @@ def run(ctx):
             ctx.report(cls, "%s: %s\n%s" % (b.name, msg, b.files[b.entry][:600]),
                        {"files": b.files, "entry": b.entry, "plan": b.plan, "expected_stdout": b.stdout,
                         "expected_trace": b.stack, "expected_assert_position": b.span, "observed_exit": rc,
-                        "observed_stdout": out[-600:], "observed_stderr": err[-1500:],
+                        "observed_stdout": out[-600:], "observed_stderr": re.sub(r"\(\d+\) panicked", "panicked", err[-1500:]),
                         "how": "mscript run main.ms -q in a directory holding the files"})
 
     for b, r in zip(core_b, results):
         real = r["real"]
-        if r["status"] == "rejected":
-            rejected.append((b, r.get("stderr", "")))
-            continue
+        # a run that panics writes no dump: tie_all calls that "rejected"; the specification check still applies
         judge(b, real["rc"], real["stdout"], real["stderr"])
+
+    # ---------------- Core programs whose run panics (the overflow kinds): T2 through the file loader
+    import os
+    n_pt2 = {"agree": 0, "skip": 0, "disagree": 0}
+    panicking = [b for b, r in zip(core_b, results) if r["status"] == "rejected" and programs.exit_class(r["real"]["rc"]) == "panic"]
+    if panicking:
+        hbin = os.path.join(core.build_harness("codec"), "codec_harness")
+        vm_drv = vmtie.driver()
+        pbase = ctx.mktemp()
+        for b, real, (stt, detail) in programs.pmap(lambda b: panic_t2(binary, hbin, vm_drv, b, pbase), panicking):
+            if stt == "agree":
+                n_pt2["agree"] += 1
+            elif stt.startswith("DISAGREE"):
+                n_pt2["disagree"] += 1
+                ctx.report("correspondence:vm-model:" + stt.split(":", 1)[1],
+                           "VM model and interpreter disagree (%s) on the panicking run %s: %s" % (stt, b.name, str(detail)[:300]),
+                           {"files": b.files, "status": stt, "detail": detail, "correspondence": "T2 Vm/Model.v vs interpreter (bytecode read back from main.mmm)"},
+                           found_input=False)
+            else:
+                n_pt2["skip"] += 1
+        if n_pt2["skip"] > len(panicking) // 2:
+            ctx.report("correspondence:vm-model:panicking-runs-not-replayed", "%d of %d panicking runs could not be replayed on the VM model" % (n_pt2["skip"], len(panicking)),
+                       {"files": panicking[0].files}, found_input=False)
 
     # ---------------- everything else: real binary versus the specification
     base = ctx.mktemp()
@@ -672,7 +749,7 @@ def run(ctx):
     rc, out, err = deep(50000)
     if programs.exit_class(rc) in ('abort', 'panic'):
         ctx.report(STACK_CLASS, 'recursion of depth 50000 ends with a native stack overflow (exit %s), not an MScript error: %s' % (rc, first_panic_line(err)),
-                   {"program": DEEP % 50000, "observed_exit": rc, "observed_stderr": err[-400:]})
+                   {"program": DEEP % 50000, "observed_exit": rc, "observed_stderr": first_panic_line(err)})
     elif rc != 0 and 'MSCRIPT INTERPRETER FATAL RUNTIME ERROR' not in err:
         ctx.report('deep-recursion:unreported', 'recursion of depth 50000: exit %s without a run-time error report' % rc, {"program": DEEP % 50000, "stderr": err[-400:]})
 
@@ -691,10 +768,10 @@ def run(ctx):
     ctx.cov["exhaustive"] = False
     ctx.cov["statistics"] = {"programs": len(built), "core_stream": len(core_b), "other_stream": len(other_b), "spec_ok": n_ok,
                              "rejected_by_compiler": len(rejected), "kinds": len(set(k for k, _ in kinds_seen)), "depths": depths,
-                             "panic_classes": panics, "core_ties": st}
+                             "panic_classes": panics, "core_ties": st, "t2_on_panicking_runs": n_pt2}
     ctx.cov["input_distribution"] = {"per_depth": {str(d): sum(v for (k, dd), v in kinds_seen.items() if dd == d) for d in depths},
                                      "flavours": {f: sum(1 for b in built if b.plan['flavour'] == f) for f in FLAVOURS}}
-    ctx.cov["traces_validated_against_impl"] = st["t2_agree"]
+    ctx.cov["traces_validated_against_impl"] = st["t2_agree"] + n_pt2["agree"]
     for b in built[:3] + core_b[:2]:
         ctx.sample({"name": b.name, "program": b.files[b.entry][:700], "expected_trace": b.stack, "expected_stdout": b.stdout})
     ctx.cov["trusted_base"] = ["Coq 8.16.1 kernel; no axioms", "OCaml extraction of Vm/Model.v and Compile/Lang + drivers (ExtrOcamlBasic)",
